@@ -201,7 +201,7 @@ def run(tier, seed):
     g = lib.run_tlc_mc("BoseMapGen",
                        {"Ds": f"<<{tla_set(ds1)}, {tla_set(ds2)}>>", "Modes": "{1, 2}",
                         "EncCases": "{" + ", ".join(f'<<"{m}", {d}, {nm}>>' for m, d, nm in sorted(enc_cases)) + "}"},
-                       wd, constants={"MaxLen": maxlen, "DenseMax": 16 if quick else 36, "DMAX": 8, "UseExtra": "TRUE"},
+                       wd, constants={"MaxLen": maxlen, "DenseMax": 16 if quick else 25, "DMAX": 8, "UseExtra": "TRUE"},
                        invariants=["Lawful"], env={"EXTRA_FILE": str(wd / "extra.json")}, timeout=3000)
     if g.invariant_violated:
         raise MachineryError("the REFERENCE violates its own laws (specification error)\n" + g.out[-2500:])
